@@ -687,6 +687,9 @@ def rule_t5(ctx, facts, rule="T5"):
 
 
 def run(ctx, facts):
+    ctx.rule("T7", "the tallies of transfer's splitting walk count the nodes (rule O11 of C04): a wrong tally re-uses an old tree bin that still holds a node of the other half, and iterators yield that key twice", floor=1)
+    from .rules_c04 import rule_split_counters
+    rule_split_counters(ctx, facts, rule="T7")
     ctx.rule("T6", "the next pointer of a node being removed is not written: an iterator standing on it still reaches the rest of the bin "
                    "(rule L12 of C01)", floor=3)
     from .rules_c01 import rule_l12
